@@ -19,7 +19,10 @@ for d in sorted(glob.glob(os.path.join(HERE, 'seeded', '*'))):
     meta = json.load(open(os.path.join(d, 'meta.json')))
     sid, prop = meta['id'], meta['breaks_property']
     props = [prop] + [p for p in sys.argv[1:] if p != prop and False]
-    subprocess.run(['git', '-C', REPO, 'apply', os.path.join(d, 'patch.diff')], check=True)
+    if subprocess.run(['git', '-C', REPO, 'apply', os.path.join(d, 'patch.diff')]).returncode != 0:
+        rows.append((sid, prop, 'patch-does-not-apply', 0, []))
+        print(sid, prop, 'PATCH DOES NOT APPLY', flush=True)
+        continue
     try:
         p = subprocess.run([os.path.join(HERE, 'check'), prop], capture_output=True, text=True)
     finally:
